@@ -55,6 +55,34 @@ func checkSig(r *ev.Recorder, pk []byte, h int, wantIdx uint32, msg, sig []byte,
 	return "", ""
 }
 
+// afterExhaustion asks a key object whose every leaf has been used for more: it may refuse (an error or one of the
+// library's explicit messages) as often as it likes, but whatever it RETURNS as a signature must verify - and none can,
+// there is no leaf left - so a returned signature is a violation of "every signature a key returns verifies".
+func afterExhaustion(r *ev.Recorder, x *xmss.XMSS, pk []byte, tag string) (string, string) {
+	for k := 0; k < 3; k++ {
+		msg := []byte{byte(k), 0xee}
+		var sig []byte
+		var err error
+		o := ev.Try(func() { sig, err = x.Sign(msg) })
+		r.Eval(1)
+		r.Count("sign_attempts_on_exhausted_key", 1)
+		if o.Panicked && !o.IsString {
+			return "exhausted/runtime-fault", fmt.Sprintf("%s: Sign #%d on the exhausted key: %s", tag, k+1, o)
+		}
+		if o.Panicked || err != nil {
+			continue
+		}
+		if lib, _ := pu.LibXMSSVerify(msg, sig, pk); !lib || !pu.SpecXMSSVerify(msg, sig, pk) {
+			idx := uint32(0)
+			if len(sig) >= 4 {
+				idx = binary.BigEndian.Uint32(sig)
+			}
+			return "exhausted/returns-unverifiable-signature", fmt.Sprintf("%s: Sign #%d on the exhausted key returned a %d-byte signature (index field %d) without error; it does not verify", tag, k+1, len(sig), idx)
+		}
+	}
+	return "", ""
+}
+
 // ---- (R) whole life with real hashing ----
 
 type lifeCase struct {
@@ -88,6 +116,10 @@ func runLife(r *ev.Recorder, c *lifeCase) (string, string) {
 		if i > 0 {
 			r.NonTrivial("real", c.Hash, c.H, []byte(c.Seed), i)
 		}
+	}
+	if k, m := afterExhaustion(r, x, pk[:], fmt.Sprintf("hash=%s h=%d, all %d leaves used by signing", pu.HashName(hf), c.H, 1<<uint(c.H))); k != "" {
+		c.FailIdx = 1 << uint(c.H)
+		return k, m
 	}
 	return "", ""
 }
@@ -231,13 +263,19 @@ func runHist(r *ev.Recorder, c *histCase) (string, string) {
 		}
 		cur++
 	}
+	if cur > last {
+		if k, m := afterExhaustion(r, x, pk[:], fmt.Sprintf("hash=%s h=%d after history [%s]", pu.HashName(hf), c.H, opsBrief(c.Ops))); k != "" {
+			return k, m
+		}
+		r.Count("histories_ending_in_exhaustion", 1)
+	}
 	return "", ""
 }
 
 func TestRealHistories(t *testing.T) {
 	xmssRealMode()
 	r := ev.New(t, prop, "TestRealHistories")
-	r.Rule("real hashing: rapid histories of Sign(m) / SetIndex(cur+d) on a fresh key (3 hashes, h in {4,6,8}), d from {0,1..3, 2^k-1,2^k,2^k+1, 'to the last index', uniform}; every signature returned after any history must verify (library + reference verifier); non-trivial = a signature produced after at least one forward jump, distinct by (hash,h,index,history)")
+	r.Rule("real hashing: rapid histories of Sign(m) / SetIndex(cur+d) on a fresh key (3 hashes, h in {4,6,8}), d from {0,1..3, 2^k-1,2^k,2^k+1, 'to the last index', uniform}; every signature returned after any history must verify (library + reference verifier), including whatever an exhausted key hands out when asked again (it may only refuse); non-trivial = a signature produced after at least one forward jump, distinct by (hash,h,index,history)")
 	checks := r.PerShard(r.Pick(240, 6000))
 	r.Rapid(t, "hist", checks, func(rt *rapid.T) {
 		c := &histCase{Hash: uint(rapid.SampledFrom(pu.Hashes).Draw(rt, "hash")), H: rapid.SampledFrom([]int{4, 4, 6, 6, 8}).Draw(rt, "h"), Seed: pu.Seed48().Draw(rt, "seed")}
